@@ -526,6 +526,13 @@ func (g *G) link(c ictx) Link {
 			g.nlabel++
 			l.Label = fmt.Sprintf("Lbl%d %s", g.nlabel, g.labelWords())
 			l.LabelNL = !c.oneLine && !c.noBreaks && coin(g.s, 1, 3)
+			if coin(g.s, 1, 40) {
+				// a label may have 999 characters - characters, not bytes
+				// (one word: respelling a gap with two blanks would make it 1000)
+				l.Label = fmt.Sprintf("Lbl%dx", g.nlabel) + strings.Repeat([]string{"a", "é", "語"}[g.s.Intn(3)], 999-len(fmt.Sprintf("Lbl%dx", g.nlabel)))
+				l.LabelNL = false
+				longLabelCount++
+			}
 		}
 	}
 	if l.Form != 0 {
@@ -550,12 +557,16 @@ func caseVariant(s Src, lab string) string {
 
 // ---------------- blocks ----------------
 
-var labelNLCount, nearMissCount, longTextCount, emptyItemCount, notLinkCount, codeNLCount, altAutoCount int
+var labelNLCount, nearMissCount, longTextCount, emptyItemCount, notLinkCount, codeNLCount, altAutoCount, longLabelCount, nearDefCount int
 
 var notLinks = [][2]string{
 	{"[zzn](<x<y>)", "[zzn](&lt;x<y>)"}, {"![zzn](<x<y>)", "![zzn](&lt;x<y>)"}, {"[zzn](a b)", "[zzn](a b)"},
 	{"[zzn](/u \"t\" x)", "[zzn](/u &quot;t&quot; x)"}, {"[zzn] (/u)", "[zzn] (/u)"}, {"[zzn](<b>c)", "[zzn](<b>c)"},
 	{"[zzn](<x\\<y<z>)", "[zzn](&lt;x&lt;y<z>)"},
+	// an unbalanced '(' in a bare destination (the destination ends at the space), a title glued to a <...> destination,
+	// '<?>' (a processing instruction needs '?>' after '<?')
+	{"[zzn]((b 't')", "[zzn]((b 't')"}, {"[zzn](b(c \"t\")", "[zzn](b(c &quot;t&quot;)"}, {"![zzn](/u( )", "![zzn](/u( )"},
+	{"[zzn](<b>\"t\")", "[zzn](<b>&quot;t&quot;)"}, {"[zzn](<b>(t))", "[zzn](<b>(t))"}, {"(<?>)", "(&lt;?&gt;)"},
 	// (look-alikes that are merely unclosed - "(a(b", an unclosed title or <...> - are not used: what follows may close them)
 }
 var avoidWSOnly = true
@@ -679,6 +690,13 @@ func (g *G) block(depth int, firstInItem bool, marker byte) Block {
 		case 10:
 			return g.htmlBlock()
 		default:
+			if coin(g.s, 1, 10) {
+				// a line that looks like a link reference definition but is not one: an unbalanced '(' in the
+				// destination, text after the title, a label of 1000 characters; and '</ div>', which is no tag
+				nd := []string{"[zzr]: (b", "[zzr]: /u(", "[zzr]: b(c 't'", "[zzr]: /u 't' x", "[" + strings.Repeat("a", 1000) + "]: /u", "</ div>", "</ a>"}[g.s.Intn(7)]
+				nearDefCount++
+				return Para{[]Inline{Text{nd}}}
+			}
 			return Para{g.inlines(ictx{para: true}, 3)}
 		}
 	}
@@ -686,7 +704,11 @@ func (g *G) block(depth int, firstInItem bool, marker byte) Block {
 
 func (g *G) htmlBlock() HTMLB {
 	ind := strings.Repeat(" ", g.s.Intn(4))
-	switch g.s.Intn(9) {
+	switch g.s.Intn(10) {
+	case 9:
+		// start condition 7: a complete open or closing tag followed only by spaces and tabs (tabs inside the tag too)
+		open := []string{"<a>\t", "<a href=\"x\"\t>", "</a\t>", "<x-y\tz='1'> \t", "<a> "}[g.s.Intn(5)]
+		return HTMLB{[]string{ind + open, "*" + g.word() + "*"}}
 	case 7:
 		// start condition 6 in its other spellings: the tag name is followed by a space, a tab, the end of the line, '>' or '/>'
 		open := []string{"<div\tclass=\"a\">", "<div class='a'", "<div", "<div/>", "</div>", "<div\t"}[g.s.Intn(6)]
